@@ -97,10 +97,16 @@ def gen(seed, tier, extra=None):
             g.funcs = ['fnA']
             model = small_model(rng, g)
             sub = {'model': model, 'answers': g.answers, 'exprs': {}, 'globals': {}}
+        elif rng.random() < 0.2:
+            g.k['data'] = False
+            sub = g.structured_plan()      # structured source, lowered by the real parser at run time
         else:
             sub = g.gen_plan()
-        plan['models'].append({'model': sub['model'], 'answers': sub['answers'], 'exprs': sub.get('exprs', {}),
-                               'globals': sub.get('globals', {}), 'hosts': sorted(g.used_hosts)})
+        entry = {'model': sub['model'], 'answers': sub['answers'], 'exprs': sub.get('exprs', {}),
+                 'globals': sub.get('globals', {}), 'hosts': sorted(g.used_hosts)}
+        if sub.get('source') is not None:
+            entry['source'] = sub['source']
+        plan['models'].append(entry)
     plan['alias_mode'] = rng.choice(['none', 'statements', 'expressions', 'all', 'all'])
     n_clients = rng.randint(2, 5)
     from ..env import EXC_NAMES
@@ -210,6 +216,17 @@ class ClientRun:
 
 def run(plan, stats):
     viols = []
+    if any(m.get('source') is not None for m in plan['models']):
+        from bare_script import parse_script, BareScriptParserError
+        plan = dict(plan)
+        plan['models'] = [dict(m) for m in plan['models']]
+        for m in plan['models']:
+            if m.get('source') is not None:
+                try:
+                    m['model'] = parse_script(m['source'])['statements']
+                except BareScriptParserError:
+                    return RunResult([], digest_of('invalid-source'))
+                stats.probes['model_parsed_from_structured_source'] += 1
     models = build_models(plan)
     snapshots = copy.deepcopy([m for m in models])
     snap_alias = [alias_signature(m) for m in models]
